@@ -266,7 +266,12 @@ func ruleInflCover(p *Prog, r *Report) {
 			r.Bad(rule, n, "keys depend on snakeCaseKeys", p.Pos(fn.Pos()), "CoerceKeysToSnakeCase has no influence on the keys of the sequence decoder")
 		}
 	}
-	// NewMapJson: UseNumber under JsonUseNumber
+	ruleInflCoverJson(p, r)
+}
+
+// ruleInflCoverJson: NewMapJson switches the decoder to json.Number under JsonUseNumber.
+func ruleInflCoverJson(p *Prog, r *Report) {
+	const rule = "INFL.cover"
 	if fn := p.Fn("mxj.NewMapJson"); fn == nil {
 		r.Anchor(rule, "mxj.NewMapJson")
 	} else {
